@@ -3,8 +3,13 @@
 What happens on every run
   prove      : translate/c19.py regenerates Generated/C19.lean from the repo, `lake build`, axiom audit.
   micro      : `norm`, `ident`, `parents` of the Lean model against os.path.normpath,
-               NameSelector.get_name and pathlib's `parents` on random inputs (exact).
-  scenarios  : sandbox trees with every placement of output_dir / graph_dir x option combinations;
+               NameSelector.get_name and pathlib's `parents` on random inputs (exact);
+               micro/guard: the containment decision of PagetreePage.writeout for copy_subdir items (real method
+               on a stub page, no disk access) against the model's guard + oracle "every copytree target is
+               inside the output directory", on near-miss names (doc / docs / doc-assets / do ...).
+  scenarios  : sandbox trees with every placement of output_dir / graph_dir x option combinations x symbolic links
+               (to outside files / directories, internal, dangling) inside the trees FORD copies verbatim and inside
+               the old output directory x copy_subdir items landing next to the output directory;
                the real FORD runs in-process under one global `sys.addaudithook` recorder;
                (a) correspondence: canonicalised sequence of mutating attempts == the model's `run`
                    (exact, ordered; consecutive `utime` runs sorted), model O/G == FORD's == realpath;
@@ -195,11 +200,37 @@ PAGESETS = {
                 "sub/index.md": "---\ntitle: S\n---\nx", "sub/extra.txt": "e"},
 }
 
+# copy_subdir items whose target lies *near* the output directory <O> = <parent>/<name> without being inside it
+# (a page at location <loc> copies to <O>/page/<loc>/<item>): siblings whose name extends / truncates <name>,
+# <O> itself, its parent, a directory called <name> somewhere else.  {N} = <name>, {n} = <name> without its last
+# character.  The corresponding source directories <work>/<...> exist (see build_sandbox).
+NEAR_TOP = ["img", "../../{N}s", "../../{N}-assets", "../../{N}.old", "../../{n}", "..", "../..", "../../x/{N}", "../page2"]
+NEAR_SUB = ["../../../{N}_old", "../../../{N}s/deeper", "../.."]
+NEAR_SOURCES = ["{N}s", "{N}-assets", "{N}.old", "{n}", "x/{N}", "{N}_old", "{N}s/deeper"]
+
+
+def near_fill(pat: str, O: Path) -> str:
+    return pat.replace("{N}", O.name).replace("{n}", O.name[:-1] or "q")
+
+
+def pageset(scn: dict, O: Path | None):
+    """The page directory of the scenario (relative file name -> content); None = no page_dir."""
+    if scn["pages"] != "near_miss":
+        return PAGESETS[scn["pages"]]
+    O = O or Path("/doc")
+    top = "\n    ".join(near_fill(i, O) for i in NEAR_TOP)
+    sub = "\n    ".join(near_fill(i, O) for i in NEAR_SUB)
+    return {"index.md": f"---\ntitle: T\ncopy_subdir: {top}\n---\nhello\n", "img/x.png": "png",
+            "sub/index.md": f"---\ntitle: S\ncopy_subdir: {sub}\n---\nx", "sub/q.md": "---\ntitle: Q\n---\nq"}
+
+
+PAGESET_NAMES = list(PAGESETS) + ["near_miss"]
+
 OUT_PLACEMENTS = {
     # name: (raw output_dir (W = work dir), expect refusal)
     "nested": "./doc", "nested_deep": "build/a/doc", "sibling": "../out", "absolute": "{W}/elsewhere/out",
     "dotdot": "src/../doc2", "dotdot_deep": "pages/sub/../../doc3", "symlink_parent": "../lnk/out",
-    "symlink_self": "./outlink", "in_src": "./src/doc", "trailing": "doc4/./sub//",
+    "symlink_self": "./outlink", "in_src": "./src/doc", "trailing": "doc4/./sub//", "near_src": "./sr",
     "eq_src": "./src", "above_src": ".", "above_all": "..", "eq_src_symlink": "../real/rsrc", "above_src2": "../lib",
     "eq_src_dotdot": "doc/../src", "above_src_symlink": "../lnk",
 }
@@ -240,12 +271,13 @@ def build_sandbox(sb: Path, scn: dict) -> dict:
         p = proj / "src" / rel
         p.parent.mkdir(parents=True, exist_ok=True)
         p.write_text(body)
-    pages = PAGESETS[scn["pages"]]
+    out_raw = OUT_PLACEMENTS[scn["out"]].replace("{W}", str(W))
+    O = Path(os.path.realpath(proj / out_raw))
+    pages = pageset(scn, O)
     opts = {"src_dir": scn["src"], "preprocess": "false", "parallel": "0", "project": "sandbox",
             "graph": "true" if scn["graph"] else "false", "search": "true" if scn["search"] else "false",
             "incl_src": "true" if scn["incl_src"] else "false",
             "externalize": "true" if scn["externalize"] else "false"}
-    out_raw = OUT_PLACEMENTS[scn["out"]].replace("{W}", str(W))
     opts["output_dir"] = out_raw
     if scn["gdir"] != "none":
         opts["graph_dir"] = G_PLACEMENTS[scn["gdir"]].replace("{W}", str(W)).replace("{O}", out_raw.rstrip("/"))
@@ -265,8 +297,36 @@ def build_sandbox(sb: Path, scn: dict) -> dict:
             p.write_bytes(body if isinstance(body, bytes) else body.encode())
         if scn["pages"] == "proj_copy":
             opts["copy_subdir"] = ["img", "nosuchdir"]
+        if scn["pages"] == "near_miss":
+            # page_dir = proj/pages, so `<page_dir>/../../<x>` is <work>/<x>
+            for pat in NEAR_SOURCES:
+                d = W / near_fill(pat, O)
+                if not under(str(d), O) and not os.path.lexists(d):
+                    d.mkdir(parents=True)
+                    (d / "pic.svg").write_text("<svg/>")
+    # symbolic links inside the trees that FORD copies verbatim (media_dir, copy_subdir directories, page files):
+    # 1 = links to existing files / directories outside the project, inside the tree; 2 = dangling links as well
+    if scn.get("links", 0):
+        victim = W / "victim"
+        made = []
+
+        def link(target, at: Path):
+            if at.parent.is_dir() and not os.path.lexists(at):
+                os.symlink(target, at)
+                made.append(str(at))
+
+        link(str(victim / "important.txt"), proj / "media" / "ext_abs.txt")
+        link("../../../victim/inner/deep.txt", proj / "media" / "m2" / "ext_rel.txt")
+        link("../../victim/inner", proj / "media" / "ext_dir")
+        link("m.txt", proj / "media" / "self.txt")
+        link(str(victim / "important.txt"), proj / "pages" / "img" / "ext.txt")
+        link("../../../victim/inner", proj / "pages" / "img" / "extdir")
+        link("../../victim/important.txt", proj / "pages" / "linked.txt")
+        if scn["links"] == 2:
+            link("../../victim/gone.png", proj / "media" / "gone.png")
+            link(str(W / "elsewhere" / "nothing"), proj / "media" / "m2" / "gone_abs")
+            link("../../../victim/gone2.png", proj / "pages" / "img" / "gone")
     # pre-existing output
-    O = Path(os.path.realpath(proj / out_raw))
     if scn["out"] not in REFUSING:
         if scn["pre_out"] == "file":
             O.parent.mkdir(parents=True, exist_ok=True)
@@ -279,6 +339,10 @@ def build_sandbox(sb: Path, scn: dict) -> dict:
             (O / "lists" / "x.html").write_text("x")
             if scn["out"] == "in_src":
                 (O / "old.f90").write_text("module shadow\nend module\n")
+            if scn.get("links", 0):
+                # stale links in the old output: the wipe must remove the links, not what they point to
+                os.symlink(str(W / "victim"), O / "oldlink")
+                os.symlink(os.path.relpath(W / "victim" / "important.txt", O / "lists"), O / "lists" / "l.txt")
     lines = ["---"]
     for k, v in opts.items():
         if isinstance(v, list):
@@ -315,16 +379,27 @@ def under(p: str, root) -> bool:
     return p == root or p.startswith(root.rstrip("/") + "/")
 
 
+RS = "\x1e"
+
+
 def walk_listing(src: Path) -> list[str] | None:
-    """Tokens of the source tree in shutil.copytree order; None when unreadable."""
+    """Tokens of the source tree in shutil.copytree order; None when unreadable.
+    0 file, 1/2 enter/leave directory (symbolic links listed as what they point to), 3 dangling link,
+    T entries of the copy in rglob order, L symbolic link entries with the physical path they point to."""
     toks: list[str] = []
     rels: list[str] = []
+    links: list[str] = []
 
     def rec(d: Path, rel: str):
         with os.scandir(d) as it:
             entries = list(it)
         for e in entries:
             r = f"{rel}/{e.name}" if rel else e.name
+            if e.is_symlink():
+                links.append("L" + r + RS + os.path.realpath(e.path))
+                if not os.path.exists(e.path):
+                    toks.append("3" + r)
+                    continue
             if e.is_dir():
                 toks.append("1" + r)
                 rels.append(r)
@@ -338,7 +413,7 @@ def walk_listing(src: Path) -> list[str] | None:
         rec(src, "")
     except OSError:
         return None
-    return toks + ["T" + r for r in sorted(rels)]
+    return toks + ["T" + r for r in sorted(rels)] + links
 
 
 # ----------------------------------------------------------------------------------------------
@@ -556,7 +631,7 @@ def diff_snap(before, after, O, G):
 
 def escape_targets(scn, lay) -> list[str]:
     """Lexical targets of page-level copy_subdir items that leave the output directory (the known class)."""
-    pages = PAGESETS[scn["pages"]] or {}
+    pages = pageset(scn, lay["O"]) or {}
     res = []
     for rel, body in pages.items():
         if not rel.endswith(".md") or isinstance(body, bytes):
@@ -597,7 +672,7 @@ def classify(scn, lay, fails) -> str | None:
 def gen_scenarios(rng: random.Random, n: int) -> list[dict]:
     outs = list(OUT_PLACEMENTS)
     gs = list(G_PLACEMENTS)
-    pages = list(PAGESETS)
+    pages = PAGESET_NAMES
     scns = []
     k = 0
     # every output placement, every graph placement and every page set appears at least once
@@ -624,7 +699,12 @@ def gen_scenarios(rng: random.Random, n: int) -> list[dict]:
             "mathjax": rng.choice([0, 1, 2]), "favicon": rng.random() < 0.4,
             "pages": pages[(k * 3) % len(pages)] if k < 2 * len(pages) else rng.choice(pages),
             "pre_out": rng.choice(["absent", "dir", "dir", "file"]), "srcset": rng.randrange(len(SRCSETS)),
+            "links": (1, 2, 0)[k % 3] if k < 12 else rng.choice([0, 1, 1, 2]),
         }
+        if k >= len(outs) and k % 9 == 2:
+            scn["pages"] = "near_miss"
+        if scn["links"] and k < 12 and k % 2 == 0:
+            scn["media"] = 1
         if out == "symlink_self":
             scn["pre_out"] = "dir"
         scns.append(scn)
@@ -768,6 +848,95 @@ def micro(ford, drv, rng, n, rep):
     return len(reqs), bad
 
 
+def micro_guard(ford, drv, rng, n, rep):
+    """The containment decision of `PagetreePage.writeout` for page-level `copy_subdir` items, in isolation:
+    the real method runs on a stub page (rendering and `copytree` replaced by recorders, nothing touches the
+    disk) for random output directories, page locations and items - many of them *near misses* (siblings of
+    the output directory whose names extend or truncate its name, the directory itself, its ancestors, the
+    same name elsewhere, absolute items).
+      correspondence : the (accepted?, target) pairs equal the model's `guardAccepts` / `norm (joinRaw ..)`;
+      oracle         : (from the property statement) every directory handed to `copytree` is the output
+                       directory or lies below it, component by component."""
+    import types
+
+    import ford.output as fo
+
+    names = ["doc", "docs", "doc-assets", "doc.old", "do", "d", "page", "pages", "out", "o", "a", "b", "x"]
+
+    def seg_list(k):
+        return [rng.choice(names) for _ in range(k)]
+
+    cases = []
+    for _ in range(n):
+        O = "/" + "/".join(seg_list(rng.randint(1, 4)))
+        oname = O.rsplit("/", 1)[1]
+        loc_parts = seg_list(rng.choice([0, 0, 1, 1, 2, 3]))
+        loc = "/".join(loc_parts) if loc_parts else "."
+        items = []
+        for _ in range(rng.randint(1, 5)):
+            r = rng.random()
+            ups = [".."] * rng.randint(0, len(loc_parts) + 3)
+            near = rng.choice([oname + "s", oname + "-assets", oname[:-1] or "q", oname, oname + "/sub", oname + ".old",
+                               "page", oname.upper(), oname + "/", oname + "//x", "./" + oname])
+            if r < 0.45:
+                it = "/".join(ups + [near])
+            elif r < 0.65:
+                it = "/".join(ups + seg_list(rng.randint(0, 2))) or "."
+            elif r < 0.8:
+                it = rng.choice([O, O + "s", O + "/page/img", O + "/..", os.path.dirname(O) or "/", O + "-assets/x", "/" + oname])
+            else:
+                it = "/".join(rng.choice(names + ["..", "..", ".", ""]) for _ in range(rng.randint(1, 5))) or "."
+            if it not in items:
+                items.append(it)
+        cases.append((O, loc, items))
+
+    calls: list = []
+    saved = (fo.BasePage.writeout, fo.copytree, fo.warn)
+    real: list = []
+    err = None
+    try:
+        fo.BasePage.writeout = lambda self: None
+        fo.copytree = lambda src, dst: calls.append((str(src), str(dst)))
+        fo.warn = lambda *a, **k: None
+        for O, loc, items in cases:
+            page = fo.PagetreePage.__new__(fo.PagetreePage)
+            page.data = {"page_dir": Path("/srcpages"), "output_dir": Path(O)}
+            page.out_dir = Path(O)
+            page.page_dir = Path(O) / "page"
+            page.obj = types.SimpleNamespace(filename=Path("/srcpages") / loc / "note.md", location=Path(loc),
+                                             path=Path(loc) / "note.html", copy_subdir=list(items), files=[])
+            del calls[:]
+            page.writeout()
+            real.append(list(calls))
+    except Exception as e:  # the method no longer has the shape the stub assumes
+        err = f"{type(e).__name__}: {e}"
+    finally:
+        fo.BasePage.writeout, fo.copytree, fo.warn = saved
+    if err is not None:
+        rep.tie_broken(f"micro/guard: PagetreePage.writeout could not be driven on a stub page ({err})")
+        return 0, 1, 0
+    got = drv.batch([["c19.guard", O, loc] + items for O, loc, items in cases])
+    bad = fails = 0
+    for (O, loc, items), calls_, g in zip(cases, real, got):
+        impl = [os.path.normpath(dst) for _src, dst in calls_]
+        impl = ["/" + d.lstrip("/") for d in impl]
+        model = [x[2:] for x in g[1:] if x.startswith("1 ")] if g and g[0] == "ok" else None
+        case = {"stream": "micro/guard", "output_dir": O, "page_location": loc, "copy_subdir": items,
+                "copytree_targets": [d for _s, d in calls_]}
+        if model != impl:
+            bad += 1
+            if bad <= 3:
+                rep.tie_broken(f"correspondence micro/guard: output_dir {O}, page location {loc}, copy_subdir {items}: "
+                               f"implementation copies to {impl}, model to {model}", dict(case, model=g))
+        outside = [d for d in impl if d != O and Path(O) not in Path(d).parents]
+        if outside:
+            fails += 1
+            if fails <= 3:
+                rep.failing_input(dict(case, failures=[{"why": f"copy_subdir item copied to {d}, which is not below the output "
+                                                               f"directory {O}"} for d in outside[:4]]), None)
+    return len(cases), bad, fails
+
+
 # ----------------------------------------------------------------------------------------------
 # main
 # ----------------------------------------------------------------------------------------------
@@ -805,6 +974,9 @@ def run(tier: str, seed: int, replay: str | None = None) -> int:
     n_micro = 600 if tier == "quick" else 6000
     n_scn = 42 if tier == "quick" else 400
     ev_micro, bad_micro = micro(ford, drv, rng, n_micro, rep)
+    ev_guard, bad_guard, fail_guard = micro_guard(ford, drv, random.Random(seed * 104729 + 7), 400 if tier == "quick" else 6000, rep)
+    ev_micro += ev_guard
+    bad_micro += bad_guard
 
     if replay:
         data = json.loads(Path(replay).read_text())
@@ -814,7 +986,7 @@ def run(tier: str, seed: int, replay: str | None = None) -> int:
     else:
         scns = gen_scenarios(rng, n_scn)
 
-    hist = {"out": {}, "gdir": {}, "pages": {}, "pre_out": {}, "flags": {}, "prim_kinds": {}, "outcome": {}}
+    hist = {"out": {}, "gdir": {}, "pages": {}, "pre_out": {}, "links": {}, "flags": {}, "prim_kinds": {}, "outcome": {}}
     samples = []
     distinct = set()
     n_corr_bad = n_oracle_fail = n_runs = n_fault_runs = 0
@@ -863,8 +1035,8 @@ def run(tier: str, seed: int, replay: str | None = None) -> int:
                 k = p.split(" ", 1)[0]
                 hist["prim_kinds"][k] = hist["prim_kinds"].get(k, 0) + 1
             if not is_fault:
-                for key in ("out", "gdir", "pages", "pre_out"):
-                    hist[key][scn[key]] = hist[key].get(scn[key], 0) + 1
+                for key in ("out", "gdir", "pages", "pre_out", "links"):
+                    hist[key][str(scn.get(key, 0))] = hist[key].get(str(scn.get(key, 0)), 0) + 1
                 for key in ("graph", "search", "incl_src", "externalize", "media", "css", "mathjax", "favicon"):
                     if scn[key]:
                         hist["flags"][key] = hist["flags"].get(key, 0) + 1
@@ -931,15 +1103,17 @@ def run(tier: str, seed: int, replay: str | None = None) -> int:
         samples=samples,
         traces_validated_against_impl=n_runs + n_fault_runs + ev_micro,
         correspondence_disagreements=n_corr_bad + bad_micro,
-        oracle_failures=n_oracle_fail,
+        oracle_failures=n_oracle_fail + fail_guard,
+        guard_micro_cases=ev_guard,
         scenario_runs=n_runs, fault_injection_runs=n_fault_runs,
         variant_decided=sorted(variant_seen),
         placement_histogram=hist,
         generated_tables=tables,
     )
     rep.assumptions += [
-        "symbolic links below the (freshly wiped) output directory and inside copied trees are not modelled; the audit "
-        "recorder and the before/after snapshot are the only evidence there",
+        "symbolic links inside copied trees (media_dir, copy_subdir directories, page files, the old output directory) are "
+        "generated and modelled as dereferenced by the copy (generated constant copytreeSymlinks); link loops, links inside "
+        "graph_dir and links created by a third party during the run are not",
         "graphviz `dot -O` is modelled by its documented effect (writes <file>.svg next to <file>); worker processes "
         "(parallel > 0) are not observed by the in-process hook: scenarios use parallel: 0",
         "creation of missing ancestor directories of output_dir/graph_dir (mkdir parents=True) and a mkdir attempt on a path "
